@@ -13,7 +13,7 @@ import itertools
 
 from ..program import AnalysisError
 from ..rules import Arms, is_call, is_mcall, mentions
-from ..terms import C, Evaluator, G, P, is_t, mk_elem, mk_proj, show, subterms
+from ..terms import C, Evaluator, G, P, is_t, mk_cmp, mk_elem, mk_proj, show, subterms
 
 MOD = "core/generative/choice_map.py"
 SELF = P("self")
@@ -83,7 +83,9 @@ def check_rewrite(chk, inst, res, operands, spec, where):
     """E4 over the whole smart constructor: for every abstract input - each operand one of AllSel (true), NoneSel (false), ComplementSel(x) (not x), any other
     selection (either value), and `a == b` true or false where consistent - the decision tree of the builder is walked by deciding its tests, and the selection
     it returns must denote spec(operands).  Independent of how the cases are spelled (match arms, merged `or` arms, guard clauses)."""
-    KINDS = ("AllSel", "NoneSel", "ComplementSel", "Other")
+    # every class the builder tests an operand against is a kind of its own (its instances may denote either truth value)
+    tested = {n_ for x in subterms(res.ret) if is_t(x, "isinst") and x[1] in operands for n_ in x[2].split("|")}
+    KINDS = tuple(["AllSel", "NoneSel", "ComplementSel", "Other"] + sorted(tested - {"AllSel", "NoneSel", "ComplementSel"}))
     rows, bad = 0, []
 
     def truth(c, kinds, env, eqflag):
@@ -99,6 +101,8 @@ def check_rewrite(chk, inst, res, operands, spec, where):
             return not truth(c[2], kinds, env, eqflag)
         if is_t(c, "cmp") and c[1] == "==" and {c[2], c[3]} == set(operands[:2]) and len(operands) == 2:
             return eqflag
+        if c in env.get("$tests", {}):  # any other test (on parts of the operands): both outcomes are explored
+            return env["$tests"][c]
         raise Unknown(show(c)[:80])
 
     def pick(t, kinds, env, eqflag):
@@ -109,7 +113,7 @@ def check_rewrite(chk, inst, res, operands, spec, where):
     try:
         for kinds_ in itertools.product(KINDS, repeat=len(operands)):
             kinds = dict(zip(operands, kinds_))
-            free = [o for o in operands if kinds[o] in ("ComplementSel", "Other")]
+            free = [o for o in operands if kinds[o] not in ("AllSel", "NoneSel")]
             for vals in itertools.product([False, True], repeat=len(free)):
                 env = {}
                 for o in operands:
@@ -127,10 +131,23 @@ def check_rewrite(chk, inst, res, operands, spec, where):
                 eq_options = [False]
                 if len(operands) == 2 and kinds_[0] == kinds_[1] and env[operands[0]] == env[operands[1]]:
                     eq_options = [False, True]  # structurally equal operands are possible
-                for eqflag in eq_options:
+                def atoms(c):
+                    if is_t(c, "bool"):
+                        return [y for x in c[2] for y in atoms(x)]
+                    if is_t(c, "un") and c[1] == "not":
+                        return atoms(c[2])
+                    return [c]
+                other = [c for c in dict.fromkeys(y for x in subterms(res.ret) if is_t(x, "phi") for y in atoms(x[1]))
+                         if not is_t(c, "isinst") and not (is_t(c, "cmp") and c[1] == "==" and {c[2], c[3]} == set(operands[:2]))][:3]
+                for eqflag, tvals in itertools.product(eq_options, itertools.product([False, True], repeat=len(other))):
+                    env["$tests"] = dict(zip(other, tvals))
                     rows += 1
                     leaf = pick(res.ret, kinds, env, eqflag)
-                    got = sem(leaf, env)
+                    try:
+                        got = sem(leaf, env)
+                    except Unknown as e:
+                        bad.append(f"{dict((show(k), v) for k, v in kinds.items())}: result {show(leaf)[:60]} is not a Boolean combination of the operands ({e})")
+                        continue
                     if got != spec(*[env[o] for o in operands]):
                         bad.append(f"{dict((show(k), v) for k, v in kinds.items())} values {[env[o] for o in operands]} equal={eqflag}: returns {show(leaf)[:50]} = {got}")
     except Unknown as e:
@@ -160,16 +177,22 @@ def run(chk, prog):
     chk.require(r.ret == C(False), "SEL-BASE", "StaticSel.check", "an address prefix is not itself selected", derived=show(r.ret), expected="False", where=W(c, "check"))
     r = ev.eval_fn(c.methods["get_subselection"], c.module, c)
     S_, A_ = ("attr", SELF, "s"), ("attr", SELF, "addr")
-    got = {"ellipsis": None, "match": None, "else": None}
-    for conds, ret in arms(r):
-        pos = [t for t, p in conds if p]
-        if any(is_t(t, "isinst") and t[1] == A_ and "Ellipsis" in t[2] for t in pos):
-            got["ellipsis"] = ret
-        elif any(t == ("cmp", "==", ADDR, A_) or t == ("cmp", "==", A_, ADDR) for t in pos):
-            got["match"] = ret
-        else:
-            got["else"] = ret
-    ok = got["ellipsis"] == S_ and got["match"] == S_ and got["else"] is not None and NONE(got["else"])
+    # finite evaluation over the two tests (the stored component is the wildcard `...`; the asked component equals the stored one)
+    from ..rules import Undecided, pick
+    got, ok = {}, True
+    for e_, m_ in itertools.product((True, False), repeat=2):
+        def atom(c, e_=e_, m_=m_):
+            if is_t(c, "isinst") and c[1] == A_ and "Ellipsis" in c[2]:
+                return e_
+            if c in (mk_cmp("==", ADDR, A_),):
+                return m_
+            raise Undecided(show(c))
+        try:
+            leaf = pick(r.ret, atom)
+        except Undecided as ex:
+            raise AnalysisError(f"StaticSel.get_subselection: unrecognised test {ex}")
+        got[f"wildcard={e_}, equal={m_}"] = leaf
+        ok = ok and ((leaf == S_) if (e_ or m_) else NONE(leaf))
     chk.require(ok, "SEL-BASE", "StaticSel.get_subselection", "wildcard / matching component -> inner selection, otherwise none", derived={k: show(v) for k, v in got.items()}.__str__(), expected="... -> self.s; addr == self.addr -> self.s; else Selection.none()", where=W(c, "get_subselection"))
     # ---------------------------------------------------------------- SEL-HOM
     def ops(t):
